@@ -132,6 +132,25 @@ def check(ctx, rep):
         for jf in sorted(li.scanned):
             roles.rebuild_rule(ctx, rep, li.owner, jf, "R-GUARDED", "%s.%s" % (li.owner.name, jf))
 
+    # the retry completion callback must find the job of the finished attempt, or the future is never resolved
+    # (shared with C05)
+    rep.rule("R-FIND", "every walk over the retry job list happens with the executor lock held or over a copy of the list (an iterator over the live list skips an entry when another thread removes one: the finished attempt's job is not found and its future stays pending)")
+    nwalk = roles.iteration_rule(ctx, rep, roles.Queue(ctx, ctx.prog.cls("RetryExecutor")), "R-FIND")
+    rep.count("walks over the retry job list", nwalk, 3)
+    # the last input's callback of f_zip builds the output tuple: an index error there leaves the output pending for
+    # ever (shared with C15)
+    from . import c15 as _c15
+    from ..core import Report as _Report
+    sub15 = _Report(rep.pid, ctx)
+    _c15.check(ctx, sub15)
+    rep.rule("R-ZIPTUPLE", "f_zip's tuple construction, run inside the last input's done-callback, cannot raise: the class table is indexed only within its bounds")
+    nz = 0
+    for o in sub15.obs:
+        if o.rule == "R-INDEX" and o.key.startswith("maketuple"):
+            nz += 1
+            rep.ob("R-ZIPTUPLE", o.key, o.ok, o.detail, o.where, o.trace)
+    rep.count("maketuple obligations", nz, 2)
+
     flags = cancelling_flags(ctx)
     depth = max(ctx.depth, 6)
     # a worker that stops serving while its executor is alive loses every future queued behind it (shared with C11)
